@@ -10,7 +10,7 @@ from __future__ import annotations
 import copy
 
 from hxv import boot
-from hxv.core import rows_to_candles, same, short, snapshot, ts_of
+from hxv.core import tf_seconds, rows_to_candles, same, short, snapshot, ts_of
 from hxv.drive import encode_chunk
 from hxv.gen import configs, schedules, streams
 from hxv.gen.timeframes import pick_timeframe
@@ -26,8 +26,7 @@ RULE = ("case = (1-5 member configs from the full grid, each given as Indicator 
         "fill, lifespan, candlestick type HA; rows at construction and/or through an append schedule). Each member is compared with a "
         "standalone twin (effective configuration, same schedule). non-trivial: (>= 2 members or a member on a collapsing timeframe) and "
         ">= 2 appends and >= 1 non-None reading. distinct: case digest.")
-ASSUMPTIONS = ["member timeframes are multiples of the Hexital-level timeframe (finer or non-nested ones are not resamplings of the base)",
-               "lifespans are generous w.r.t. look-back (C15 precondition) so trimming never starves a reading"]
+ASSUMPTIONS = ["lifespans are generous w.r.t. look-back (C15 precondition) so trimming never starves a reading"]
 
 
 def plan(tier):
@@ -64,6 +63,11 @@ def gen_case(rng, tier, idx):
         r = rng.random()
         if r < 0.35:
             c["kw"]["timeframe"] = tf_name(unit * rng.choice([2, 3, 5]))
+            if tf and rng.random() < 0.3:
+                # a member timeframe that is NOT a multiple of the Hexital-level one: finer (a multiple of the feed's step) or coarser by 3/2
+                alts = [step * k for k in (1, 2, 3) if step * k < tf_s] + ([tf_s * 3 // 2] if tf_s % 2 == 0 else [])
+                if alts:
+                    c["kw"]["timeframe"] = tf_name(rng.choice(alts))
         elif r < 0.45 and tf:
             c["kw"]["timeframe"] = tf
         if c["kw"].get("timeframe") and not fill and not ha and rng.random() < 0.2:
@@ -189,19 +193,53 @@ def run_case(case):
         if eff_tf:
             kw["timeframe"] = eff_tf
         twins[nm] = configs.build(cfg2, candles=rows_to_candles(rows[:pre]), **kw)
+    def non_nested(cfg):
+        mtf = cfg["kw"].get("timeframe")
+        return bool(mtf and case["tf"] and tf_seconds(mtf) % tf_seconds(case["tf"]) != 0)
+
+    def seeded_twin(cfg):
+        """The known mechanism reproduced exactly: a standalone indicator seeded with the Hexital's already processed (collapsed / filled /
+        trimmed) base candles and then driven by the same schedule. -> (column | None, (exception type name, chunk number) | None)"""
+        eff = {k: v for k, v in hkw.items() if k != "timeframe"}
+        eff["timeframe"] = cfg["kw"]["timeframe"]
+        cfg2 = {**cfg, "kw": {k: v for k, v in cfg["kw"].items() if k not in ("timeframe", "timeframe_fill")}}
+        j = -1
+        try:
+            t2 = configs.build(cfg2, candles=rows_to_candles(seed_rows), **eff)
+            if sch.get("precalc"):
+                t2.calculate()
+            p2 = pre
+            for j, size in enumerate(sch["chunks"]):
+                t2.append(encode_chunk(rows, p2, size, sch.get("enc", "candle")))
+                p2 += size
+        except Exception as e2:
+            return None, (type(e2).__name__, j)
+        return [(s_["ts"], s_["ohlcv"], s_["ind"].get(t2.name)) for s_ in snapshot(t2.candles, helpers=False)], None
+
+    j = -1
     try:
         if sch.get("precalc"):
             hx.calculate()
             for t in twins.values():
                 t.calculate()
         pos = pre
-        for size in sch["chunks"]:
+        for j, size in enumerate(sch["chunks"]):
             hx.append(encode_chunk(rows, pos, size, sch.get("enc", "candle")))
             for t in twins.values():
                 t.append(encode_chunk(rows, pos, size, sch.get("enc", "candle")))
             pos += size
     except Exception as e:
         import traceback
+        if pre > 0 and type(e).__name__ == "InvalidCandleOrder":
+            # a member manager seeded from base candles already collapsed to a timeframe its own does not nest in holds buckets labelled in
+            # the future: the next raw candle is "out of order". Attributed to the recorded finding only when the exactly seeded standalone
+            # twin of such a member raises the same error at the same append.
+            for nm in names:
+                cfg = cfg_by_name[nm]["cfg"]
+                if non_nested(cfg) and seeded_twin(cfg)[1] == ("InvalidCandleOrder", j):
+                    V("standalone-twin", "C08|member-tf-seeded-from-processed-base|collapsed",
+                      f"member {nm} (timeframe {cfg['kw']['timeframe']} inside Hexital timeframe {case['tf']}, {pre} candles at construction): append #{j} raises InvalidCandleOrder exactly like a standalone indicator seeded with the Hexital's already collapsed base candles")
+                    return {"violations": viol, "nontrivial": True, "stats": stats}
         V("exception", f"C08|append-raises|{type(e).__name__}", (repr(e) + traceback.format_exc()[-400:])[:800])
         return {"violations": viol, "nontrivial": True, "stats": stats}
     any_reading = False
@@ -224,26 +262,13 @@ def run_case(case):
             else:
                 i = next(k for k in range(len(a)) if not same(a[k], b[k]))
                 kind = "candles" if a[i][:2] != b[i][:2] else "readings"
-            if own_tf and pre > 0 and (case["lifespan_s"] or (case["fill"] and case["tf"])):
+            if own_tf and pre > 0 and (case["lifespan_s"] or (case["fill"] and case["tf"]) or non_nested(cfg)):
                 # Known mechanism: the member-timeframe manager is seeded from the default manager's already processed candles
                 # (trimmed by the lifespan / gap-filled) instead of the raw input. Decide by reproducing exactly that seeding
                 # with a standalone indicator: only an exact match is attributed to the known mechanism.
-                try:
-                    eff = {k: v for k, v in hkw.items() if k != "timeframe"}
-                    eff["timeframe"] = cfg["kw"]["timeframe"]
-                    cfg2 = {**cfg, "kw": {k: v for k, v in cfg["kw"].items() if k not in ("timeframe", "timeframe_fill")}}
-                    t2 = configs.build(cfg2, candles=rows_to_candles(seed_rows), **eff)
-                    if sch.get("precalc"):
-                        t2.calculate()
-                    p2 = pre
-                    for size in sch["chunks"]:
-                        t2.append(encode_chunk(rows, p2, size, sch.get("enc", "candle")))
-                        p2 += size
-                    c2 = [(s_["ts"], s_["ohlcv"], s_["ind"].get(t2.name)) for s_ in snapshot(t2.candles, helpers=False)]
-                except Exception:
-                    c2 = None
+                c2 = seeded_twin(cfg)[0]
                 if c2 is not None and same(a, c2):
-                    which = "trimmed" if case["lifespan_s"] else "filled"
+                    which = "collapsed" if non_nested(cfg) else ("trimmed" if case["lifespan_s"] else "filled")
                     V("standalone-twin", f"C08|member-tf-seeded-from-processed-base|{which}",
                       f"member {nm} equals a standalone indicator seeded with the Hexital's already {which} base candles, not one fed the raw stream: first difference at candle {i} of {len(a)}: member {short(a[i] if i < len(a) else None, 200)} raw-fed twin {short(b[i] if i < len(b) else None, 200)}")
                     continue
